@@ -600,6 +600,20 @@ impl Burst {
                 },
             );
 
+        // While the address is unvalidated, a credit that is not zero but too small for a packet
+        // makes the assembly fail with other signals: more received data must restart the burst.
+        let result = result.map_err(|error| match error {
+            BurstError::Signals(signals)
+                if !matches!(
+                    self.path.anti_amplifier.balance(),
+                    Ok(Some(usize::MAX) | None)
+                ) =>
+            {
+                BurstError::Signals(signals | Signals::CREDIT)
+            }
+            error => error,
+        });
+
         Ok(result?
             .iter()
             .zip(buffers)
